@@ -145,6 +145,11 @@ class PythonConstructRenderer:
             # Sanitize description for use within a triple-double-quoted string for the actual docstring
             safe_desc_content = description.replace("\\", "\\\\")  # Escape backslashes first
             safe_desc_content = safe_desc_content.replace('"""', '\\"\\"\\"')  # Escape triple-double-quotes
+            safe_desc_content = safe_desc_content.replace("\x00", "\\x00")
+            head = safe_desc_content[:-1]
+            if safe_desc_content.endswith('"') and (len(head) - len(head.rstrip("\\"))) % 2 == 0:
+                # A trailing unescaped quote would merge with the closing triple quote
+                safe_desc_content = head + '\\"'
             writer.write_line(f'"""Alias for {safe_desc_content}"""')  # Actual generated docstring uses """
         return writer.get_code()
 
@@ -296,7 +301,8 @@ class PythonConstructRenderer:
             for name, type_hint, _, field_desc in required_fields:
                 line = f"{name}: {type_hint}"
                 if field_desc:
-                    comment_text = field_desc.replace("\n", " ")
+                    # A comment must stay on one line: every kind of line break (and NUL) becomes a space
+                    comment_text = " ".join(field_desc.replace("\x00", " ").splitlines())
                     line += f"  # {comment_text}"
                 writer.write_line(line)
 
@@ -306,7 +312,8 @@ class PythonConstructRenderer:
                     context.add_import("dataclasses", "field")  # Ensure field is imported
                 line = f"{name}: {type_hint} = {default_expr}"
                 if field_desc:
-                    comment_text = field_desc.replace("\n", " ")
+                    # A comment must stay on one line: every kind of line break (and NUL) becomes a space
+                    comment_text = " ".join(field_desc.replace("\x00", " ").splitlines())
                     line += f"  # {comment_text}"
                 writer.write_line(line)
 
